@@ -9,6 +9,7 @@
 #include <string>
 #include <type_traits>
 #include <typeinfo>
+#include <utility>
 #include <vector>
 namespace pybind11 {
 struct BindingRecord {
@@ -23,6 +24,26 @@ inline std::vector<BindingRecord> &records() {
   static std::vector<BindingRecord> r;
   return r;
 }
+// Callables registered through lambdas (three-argument ones: self, parameters, callback) are kept so that a monitor can run
+// them and compare their effect with the C++ member the Python name promises.
+using ErasedCall3 = std::function<void(void *, const void *, void *)>;
+inline std::vector<std::pair<std::string, ErasedCall3>> &lambdas3() {
+  static std::vector<std::pair<std::string, ErasedCall3>> v;
+  return v;
+}
+template <class T>
+struct call3_traits { static constexpr bool ok = false; };
+template <class C, class R, class A0, class A1, class A2>
+struct call3_traits<R (C::*)(A0, A1, A2) const> {
+  static constexpr bool ok = true;
+  using a0 = std::remove_reference_t<A0>;
+  using a1 = std::remove_cv_t<std::remove_reference_t<A1>>;
+  using a2 = std::remove_reference_t<A2>;
+};
+template <class F, class = void>
+struct lambda3 { static constexpr bool ok = false; };
+template <class F>
+struct lambda3<F, std::void_t<decltype(&F::operator())>> : call3_traits<decltype(&F::operator())> {};
 template <class P>
 std::string rawBytes(P p) {
   if constexpr (std::is_member_pointer<P>::value) {
@@ -77,6 +98,14 @@ struct class_ {
     BindingRecord r;
     r.scope = scope; r.kind = "def"; r.name = n; r.memberBytes = rawBytes(f); r.typeName = typeid(F).name(); r.isMemberPointer = std::is_member_pointer<F>::value;
     records().push_back(r);
+    if constexpr (!std::is_member_pointer<F>::value) {
+      if constexpr (lambda3<F>::ok) {
+        using L = lambda3<F>;
+        lambdas3().emplace_back(scope + "." + n, [f](void *p0, const void *p1, void *p2) {
+          f(*static_cast<typename L::a0 *>(p0), *static_cast<const typename L::a1 *>(p1), std::move(*static_cast<typename L::a2 *>(p2)));
+        });
+      }
+    }
     return *this;
   }
   template <class M>
